@@ -174,6 +174,9 @@ def run(run):
     fc = [p for p in prog.bodies if p.endswith("Property::from_char")]
     if fc:
         statics = {o[1] for o in prog.slicer(fc[0]).return_slice() if o[0] == "static"}
+        # a table consulted in a closure (`.or_else(|| UNICODE_PROPERTIES.get(&ch))`) counts as well
+        for q in prog.closures_of(fc[0]):
+            statics |= {o[1] for o in prog.slicer(q).return_slice() if o[0] == "static"}
         want = {"svgbob::map::ascii_map::ASCII_PROPERTIES", "svgbob::map::unicode_map::UNICODE_PROPERTIES"}
         if statics == want:
             run.ok("C03.T2", "Property::from_char looks up exactly the two character tables", where(prog.bodies[fc[0]]))
